@@ -59,6 +59,7 @@ const (
 	decoCondBranches
 	decoRichOperands
 	decoCondTrueBranch
+	decoStackedPrefix
 	decoCount
 )
 
@@ -126,6 +127,13 @@ func (p *c04) chainAt(i int) *c04chain {
 			c.cond = 2
 		case decoCondTrueBranch:
 			c.cond = 3
+		case decoStackedPrefix:
+			st := []string{"not -", "- -", "not not", "- not", "+ -", "not - -"}
+			c.setPrefix(0, st[i%len(st)])
+			c.setPrefix(n, st[(i/7)%len(st)])
+			if n >= 2 {
+				c.setPrefix(1, st[(i/3)%len(st)])
+			}
 		case decoRichOperands:
 			for x := 0; x <= n; x++ {
 				c.enrich(x, i/decoCount+x)
@@ -143,6 +151,8 @@ func (p *c04) chainAt(i int) *c04chain {
 	for x := 0; x <= n; x++ {
 		if r.Intn(4) == 0 {
 			c.setPrefix(x, un[r.Intn(3)])
+		} else if r.Intn(12) == 0 {
+			c.setPrefix(x, []string{"not -", "- -", "not not", "- not", "+ -"}[r.Intn(5)])
 		}
 	}
 	c.cond = r.Intn(4)
@@ -164,7 +174,9 @@ func (c *c04chain) enrich(i, form int) {
 	if !ok {
 		return
 	}
-	switch form % 8 {
+	switch form % 9 {
+	case 8:
+		c.operands[i] = &gen.ENum{Text: strconv.Itoa(11 + i)} // a number literal (self-identifying: 11, 12, ...)
 	case 0:
 		c.operands[i] = &gen.EInterp{Parts: []gen.Expr{&gen.EStr{S: "s"}, nm}} // "s#{v}": ends in an interpolation
 	case 1:
@@ -248,7 +260,13 @@ func (c *c04chain) flat() gen.Expr {
 
 func (c *c04chain) withPrefix(i int) gen.Expr {
 	if c.prefix[i] != "" {
-		return &gen.EUn{Op: c.prefix[i], X: c.operand(i)}
+		// "not -" is two stacked prefix operators: not (- operand)
+		ops := strings.Fields(c.prefix[i])
+		e := c.operand(i)
+		for k := len(ops) - 1; k >= 0; k-- {
+			e = &gen.EUn{Op: ops[k], X: e}
+		}
+		return e
 	}
 	return c.operand(i)
 }
@@ -314,13 +332,15 @@ func (ps *c04parser) primary() gen.Expr {
 	i := ps.opd
 	ps.opd++
 	atom := ps.c.operand(i)
-	if u := ps.c.prefix[i]; u != "" {
-		// the unary operator takes the operand delimited by its own precedence
-		saved := ps.c.prefix[i]
-		ps.c.prefix[i] = ""
+	if all := ps.c.prefix[i]; all != "" {
+		// the (outermost) unary operator takes the operand delimited by its own precedence; further prefix
+		// operators stacked behind it are met again when that operand is parsed
+		ops := strings.Fields(all)
+		u := ops[0]
+		ps.c.prefix[i] = strings.Join(ops[1:], " ")
 		ps.opd--
 		x := ps.expr(c04Un[u])
-		ps.c.prefix[i] = saved
+		ps.c.prefix[i] = all
 		return &gen.EUn{Op: u, X: x}
 	}
 	return atom
@@ -466,7 +486,7 @@ func (p *c04) Run(i int) (res fw.Result) {
 }
 
 func (p *c04) Rule() string {
-	return "exhaustive: every chain of k binary operators (all 27, incl. is / is not with a test as right operand) over self-identifying operands for k<=2 (quick) / k<=4 (thorough: 27+729+19683+531441 chains), each in 10 decorations (plain; operands that are not plain names: interpolated strings ending / starting / consisting of an interpolation, calls, filters, subscripts of array and hash literals, string literals; unary -,+,not on the first / second / last operand; not on the first plus - on the last; trailing conditional; a parenthesised conditional as an operand; right-nested conditionals with the chain in the branches; a conditional nested in the true branch); every other operand name begins with an operator word (index1, order3, isle5, nota7, andy9 ...); plus seeded random chains of 5..12 operators with random prefixes and conditionals. Oracle: reference precedence climbing over a pinned copy of the operator table yields the fully parenthesised form; the flat and the parenthesised spelling must parse to the same tree (GroupExpr erased) and render identically (output and error kind) under 3 valuations (all chains k<=3, every 20th k=4 chain, all random chains). Non-trivial = k>=2; distinct = operator sequence + decoration."
+	return "exhaustive: every chain of k binary operators (all 27, incl. is / is not with a test as right operand) over self-identifying operands for k<=2 (quick) / k<=4 (thorough: 27+729+19683+531441 chains), each in 11 decorations (plain; operands that are not plain names: interpolated strings ending / starting / consisting of an interpolation, calls, filters, subscripts of array and hash literals, string literals; unary -,+,not on the first / second / last operand; not on the first plus - on the last; trailing conditional; a parenthesised conditional as an operand; right-nested conditionals with the chain in the branches; a conditional nested in the true branch; stacked prefix operators (not -, - -, not not, - not, + -) on first, second and last operand); operands may also be number literals; every other operand name begins with an operator word (index1, order3, isle5, nota7, andy9 ...); plus seeded random chains of 5..12 operators with random prefixes and conditionals. Oracle: reference precedence climbing over a pinned copy of the operator table yields the fully parenthesised form; the flat and the parenthesised spelling must parse to the same tree (GroupExpr erased) and render identically (output and error kind) under 3 valuations (all chains k<=3, every 20th k=4 chain, all random chains). Non-trivial = k>=2; distinct = operator sequence + decoration."
 }
 
 func (p *c04) Assumptions() []string {
